@@ -55,7 +55,8 @@ def run_prog(cmd, cwd, timeout=TIMEOUT, stack_kb=8192):
 
 def classify(rc, err):
     """None if the run ended normally, else a root-cause key."""
-    if rc in (0, 1):
+    # UBSan's non-recoverable reports end the process with status 1, the same status a diagnosed parse error gives
+    if rc in (0, 1) and 'runtime error: ' not in err:
         return None
     if rc == 'timeout':
         return 'timeout'
